@@ -13,6 +13,23 @@ ADAPTERS = re.compile(r'(Result::<T, E>::(map_err|map|and_then|or_else|inspect_e
 PANIC_ON_ERR = re.compile(r'Result::<T, E>::(unwrap|expect)$')
 
 
+def same_adt(o, apath):
+    """ADT paths printed from another crate use the visible re-export path: compare crate + type name"""
+    if o == apath:
+        return True
+    return bool(o) and o.split('::')[0] == apath.split('::')[0] and o.split('::')[-1] == apath.split('::')[-1]
+
+
+def _adt_of_owner(P, o):
+    a = P.adts.get(o)
+    if a is not None:
+        return a
+    for p_, a_ in P.adts.items():
+        if same_adt(o, p_):
+            return a_
+    return None
+
+
 def owner_qual(P, fn):
     """qual of the enclosing named function (closures are attributed to their creator)"""
     q = fn['qual']
@@ -75,7 +92,7 @@ def field_writes(P, adt_short, field, include_borrows=True, include_ctor=True):
         os_ = pl.get('o') or []
         hits = []
         for i, (e, o) in enumerate(zip(ps, os_)):
-            if o == apath and (field is None or e == '.' + field):
+            if same_adt(o, apath) and (field is None or e == '.' + field):
                 hits.append(i)
         return hits, len(ps)
 
@@ -687,7 +704,7 @@ def field_method_uses(P, adt_short, field):
     def is_field_place(pl):
         ps = [e for e in pl['p'] if e.startswith('.')]
         os_ = pl.get('o') or []
-        return bool(ps) and len(os_) == len(ps) and ps[-1] == '.' + field and os_[-1] == apath
+        return bool(ps) and len(os_) == len(ps) and ps[-1] == '.' + field and same_adt(os_[-1], apath)
 
     for fn in P.fns.values():
         # locals that are references to the field
@@ -780,7 +797,7 @@ def arm_wiring(P, fn_qual, enum_short, expect, what='call', call_rx=None, arg=0)
             # field place: use the declared type of the last field when available
             ps = [e for e in src['p'] if e.startswith('.')]
             if ps and owners:
-                own = P.adts.get(owners[-1])
+                own = _adt_of_owner(P, owners[-1])
                 if own:
                     for v in own['variants']:
                         for f in v['fields']:
@@ -852,7 +869,7 @@ def discr_reads(P, enum_short):
                     is_enum = fn['locals'][src['l']]['head'] == 'adt:' + apath
                 else:
                     owners = src.get('o') or []
-                    own = P.adts.get(owners[-1]) if owners else None
+                    own = _adt_of_owner(P, owners[-1]) if owners else None
                     if own:
                         for v in own['variants']:
                             for f in v['fields']:
